@@ -244,6 +244,8 @@ var c02Snippets = []string{
 	`func f(a []int) []int { b := a[1:]; b[0] = 9; a = append(a, 4); return a }; r := f([]int{1,2,3}); r`,
 	`func f(a uint32, n uint32) uint32 { a = a - 1; a = a >> n; a--; return a }; r := f(0, 1); r`,
 	`func f(p *T) int { return p.X }; type T struct { X int }; var q *T; r := f(q); r`,
+	"func boom(a int, b int) int {\n\tz := 0\n\treturn a / z\n}\nfunc f(n int) int {\n\treturn boom(\n\t\tn,\n\t\t2)\n}\nx := f(\n\t3)\n",
+	"type T struct { N int }\nfunc (t *T) M(a int,\n\tb int) int {\n\tvar p *T\n\treturn p.N + a + b\n}\nfunc g(t *T) int {\n\treturn t.M(\n\t\t1,\n\t\t2)\n}\ny := g(&T{})\n",
 	`func f(a int) int { switch a { case 1, 2: a = a + 10; case 3: a--; default: a = a * a }; return a }; x := f(1); y := f(3); z := f(5); x; y; z`,
 }
 
